@@ -272,6 +272,9 @@ fn run_script(n: usize, seed: u64, ops: Vec<Op>) -> String {
     while exits < expected_exits && t0.elapsed() < Duration::from_millis(3000) {
         std::thread::sleep(Duration::from_micros(200));
         exits = vt::count(|r| matches!(r.event, Event::Exit(_)));
+        if vt::count(|_| true) > 20_000 {
+            break; // runaway history (a worker spinning): no point in waiting
+        }
     }
     let t1 = Instant::now();
     let mut left = live_workers();
